@@ -161,6 +161,14 @@ def compare(c, o):
         return f"model {o['out']!r} != implementation {c['out']!r}"
     if o["render"] != o["out"]:
         return f"model: render(previewSegs) {o['render']!r} != previewStr {o['out']!r}"
+    # the model's reader (Adeu.Markup.parse) against the harness' independent parser, on the real output
+    try:
+        segs = sem.parse_critic(c["out"])
+        mine = (sem.critic_reject(segs), sem.critic_accept(segs))
+    except sem.CriticError:
+        mine = (None, None)
+    if (o.get("read_reject"), o.get("read_accept")) != mine and mine[0] is not None:
+        return f"readers differ on {c['out']!r}: model {(o.get('read_reject'), o.get('read_accept'))!r}, harness parser {mine!r}"
     return None
 
 
